@@ -180,6 +180,51 @@ Proof.
 Qed.
 Print Assumptions C14_precheck_never_discards_deliverable.
 
+(** Addressing by name.  For every history of operations - every set of logs in
+    every creation order, names that are prefixes of each other included - the log
+    found for a name (getLog( name), used by GET_LOG and by the level pre-check of
+    the macros) is the log with exactly that name; sending by name delivers what
+    sending to the id of that log delivers; the pre-check by name answers what the
+    pre-check by that id answers.  For a name no log has: no log, nothing delivered,
+    the pre-check discards. *)
+Theorem C14_by_name_is_by_id :
+  forall ops name m,
+    snd m < 7 ->
+    let w := fst (run init_world ops) in
+    (forall ld, In ld (logs w) -> lname ld = name ->
+       get_log_name (logs w) name = Some ld /\
+       log_name (logs w) name m = log_ids (logs w) (id_of_bit (lbit ld)) m /\
+       discard_name (logs w) name (fst m) = discard_id (logs w) (id_of_bit (lbit ld)) (fst m)) /\
+    ((forall ld, In ld (logs w) -> lname ld <> name) ->
+       get_log_name (logs w) name = None /\ log_name (logs w) name m = Ok [] /\
+       discard_name (logs w) name (fst m) = Ok true /\ macro_name (logs w) name m = Ok []).
+Proof.
+  intros ops name m H w. split.
+  - intros ld I E. apply by_name_is_by_id; auto. apply run_inv, init_world_inv.
+  - intros NN. apply unknown_name. intros I. apply in_map_iff in I.
+    destruct I as [ld [E I]]. exact (NN ld I E).
+Qed.
+Print Assumptions C14_by_name_is_by_id.
+
+(** The level-guarded macros (LOG_LEVEL( a, l) << class << text = pre-check, then
+    StreamLog -> Logging::log): for a log addressed by name or by its id they deliver
+    exactly what the unguarded send delivers, and by name = by id. *)
+Theorem C14_macro_path_exact :
+  forall ops name ld m,
+    snd m < 7 -> name <> EmptyString ->
+    let w := fst (run init_world ops) in
+    In ld (logs w) -> lname ld = name ->
+    macro_name (logs w) name m = log_name (logs w) name m /\
+    macro_ids (logs w) (id_of_bit (lbit ld)) m = log_ids (logs w) (id_of_bit (lbit ld)) m /\
+    macro_name (logs w) name m = macro_ids (logs w) (id_of_bit (lbit ld)) m.
+Proof.
+  intros ops name ld m H NE w I E.
+  assert (WI : WInv w) by apply run_inv, init_world_inv.
+  split; [now apply macro_name_exact|]. split; [now apply macro_ids_exact|].
+  now apply macro_by_name_is_by_id.
+Qed.
+Print Assumptions C14_macro_path_exact.
+
 (* ------------------------------------------------------------------ *)
 (** The pinned tree violated the property in three places; witnesses on the
     functions that mirror the pinned code (also corpus cases of the generator,
@@ -215,4 +260,21 @@ Example C14_nonvacuous :
   log_ids (logs w) 3 (5, 1) = Ok [("b", "z")]%string /\
   discard_id (logs w) 1 0 = Ok true /\ discard_id (logs w) 1 3 = Ok false /\
   discard_id (logs w) 3 3 = Err ERuntime.
+Proof. vm_compute. repeat split; reflexivity. Qed.
+
+(** Non-vacuity for the names: "net.debug" is created before its prefix "net", the two
+    logs have different level filters; by name each log answers for itself. *)
+Example C14_nonvacuous_prefix_names :
+  let ops := [ONewLog "net.debug"; OAddDest "net.debug" "x"; ONewLog "net"; OAddDest "net" "y";
+              ONewLog "n"; OAddDest "n" "z";
+              OSet (TgLog "net.debug") (SMin 5); OSet (TgLog "net") (SMax 2);
+              OSet (TgLog "n") (SLevel 4)]%string in
+  let w := fst (run init_world ops) in
+  macro_name (logs w) "net" (1, 1) = Ok [("net", "y")]%string /\
+  macro_ids (logs w) 2 (1, 1) = Ok [("net", "y")]%string /\
+  macro_name (logs w) "net.debug" (1, 1) = Ok [] /\
+  macro_name (logs w) "net.debug" (6, 1) = Ok [("net.debug", "x")]%string /\
+  macro_name (logs w) "n" (4, 3) = Ok [("n", "z")]%string /\
+  macro_name (logs w) "ne" (4, 3) = Ok [] /\
+  discard_name (logs w) "net" 1 = Ok false /\ discard_name (logs w) "net.debug" 1 = Ok true.
 Proof. vm_compute. repeat split; reflexivity. Qed.
